@@ -142,6 +142,23 @@ def m_zeros(interp, shape, dtype=float, **kw):
     return SArr.from_fn(lambda *i: z, shape, dtype)
 
 
+@model(np.full)
+def m_full(interp, shape, fill_value, dtype=None, **kw):
+    """np.full(shape, v, dtype) == (a = np.empty(shape, dtype); a[...] = v; a)"""
+    if not contains_sym(shape) and not contains_sym(fill_value) and not isinstance(fill_value, SArr):
+        return _native(np.full, shape, fill_value, dtype=dtype, **kw)
+    if dtype is None:
+        raise Unsupported("np.full of a symbolic value without an explicit dtype")
+    shape_t = tuple(interp.iterate(shape)) if isinstance(shape, (list, tuple)) else (shape,)
+    for s_ in shape_t:
+        if interp.truth(s_ < 0):
+            raise RaiseSig(ValueError("negative dimensions are not allowed"))
+    dt = np.dtype(dtype)
+    a = SArr.fresh(ctx(), ctx().fresh_name("full"), dt, shape_t, kind="real" if dt.kind == "f" else "int", inp=False)
+    a.setitem(Ellipsis, fill_value)
+    return a
+
+
 @model(np.reshape)
 def m_reshape(interp, a, shape, order="C"):
     if isinstance(a, SArr):
